@@ -160,6 +160,9 @@ where
     }
 
     fn finish(&mut self, _: &Header) -> io::Result<()> {
-        Ok(())
+        // Hand everything that is still staged in the underlying writer (a BGZF block, a
+        // `BufWriter`) to its destination, so that a failure is reported here instead of being
+        // discarded when the writer is dropped.
+        self.inner.flush()
     }
 }
